@@ -67,8 +67,21 @@ func RunMerkle(w *tr.Writer, st *MStats, tid int, n int, indices []int, r *rand.
 		var mt2 util.MerkleTree
 		rtOK := mt2.SetTree(n, append([]string(nil), tree...)) == nil && mt2.GetRoot() == root
 		var rows []any
+		orig := map[int]*util.MTPath{}
+		samePath := func(a, b *util.MTPath) bool {
+			if a == nil || b == nil || len(a.Nodes) != len(b.Nodes) || a.LeafIndex != b.LeafIndex {
+				return false
+			}
+			for k := range a.Nodes {
+				if a.Nodes[k] != b.Nodes[k] {
+					return false
+				}
+			}
+			return true
+		}
 		for _, idx := range indices {
 			path := mt.GetPathByIndex(idx)
+			orig[idx] = path
 			var pos []any
 			for _, h := range path.Nodes {
 				p := where[h]
@@ -93,6 +106,8 @@ func RunMerkle(w *tr.Writer, st *MStats, tid int, n int, indices []int, r *rand.
 				for k := range q.Nodes {
 					same = same && k < len(path.Nodes) && q.Nodes[k] == path.Nodes[k]
 				}
+				// the loaded tree answers lookups by leaf like the tree it was exported from
+				same = same && samePath(mt2.GetPath(leaves[idx]), path)
 			}
 			// the same path must not verify for any other leaf
 			foreign := false
@@ -128,6 +143,17 @@ func RunMerkle(w *tr.Writer, st *MStats, tid int, n int, indices []int, r *rand.
 			other[i] = mleaf(util.Hash(fmt.Sprintf("other-%d-of-%d", i, n)))
 		}
 		mt.ComputeTree(other)
+		// ... the source object has by now served lookups by leaf for two different trees; loading the first export back into
+		// it gives the first tree again: same root, same paths by index and by leaf
+		lookedUp := len(indices) > 0 && mt.GetPath(other[indices[0]]) != nil
+		backOK := mt.SetTree(n, append([]string(nil), exp...)) == nil && mt.GetRoot() == root
+		for _, idx := range indices {
+			if !backOK || !lookedUp {
+				break
+			}
+			backOK = samePath(mt.GetPath(leaves[idx]), orig[idx]) && samePath(mt.GetPathByIndex(idx), orig[idx]) &&
+				mt.VerifyPath(leaves[idx], mt.GetPath(leaves[idx]))
+		}
 		var mt3 util.MerkleTree
 		reuseOK := mt3.SetTree(n, exp) == nil && mt3.GetRoot() == root
 		if reuseOK && len(indices) > 0 {
@@ -141,7 +167,7 @@ func RunMerkle(w *tr.Writer, st *MStats, tid int, n int, indices []int, r *rand.
 			second.ComputeTree(other)
 			reuseOK = reuseOK && first.GetRoot() == root
 		}
-		ev["settree"] = rtOK && reuseOK
+		ev["settree"] = rtOK && reuseOK && backOK
 		return "ok"
 	})
 	ev["res"] = res
